@@ -142,7 +142,12 @@ func BFS(r *Run, o BFSOpts) (states, transitions int) {
 	frontier := []node{{append([]int{}, o.Prefix...)}}
 	for depth := len(o.Prefix); depth < o.MaxDepth && len(frontier) > 0; depth++ {
 		var next []node
-		for _, n := range frontier {
+		for fi, n := range frontier {
+			if r.OutOfTime() {
+				r.Cap(fmt.Sprintf("%s: time budget reached at depth %d (%d of %d frontier states expanded; all shorter histories fully covered)", o.Name, depth+1, fi, len(frontier)))
+				r.Add("states", int64(len(seen)))
+				return len(seen), transitions
+			}
 			for ev := 0; ev < o.NEvents; ev++ {
 				var fail, key string
 				o.Run(func(m Model) {
